@@ -1,92 +1,98 @@
 import CollectionsC.Proofs.HashTableDerived
 import CollectionsC.Proofs.HashTableLedger
 import CollectionsC.Proofs.HashTableNamed
-/-! # C14 / C15 (hash part) — `get_keys` / `get_values` and the configured allocators
+import CollectionsC.Properties.C02
+/-! # C15 (hash part) — `get_keys` / `get_values`
 
-C15: the arrays returned by `cc_hashtable_get_keys/get_values` hold exactly the keys / values of the
-map, are well-formed arrays of capacity `size` carrying the default expansion factor (so a further
-`cc_array_add` on the full array grows it and appends), and building them does not touch the table
-(the model functions return no table).  C14: they are built with the table's allocator triple, and
-no operation of the table or the set ever goes to the C library allocator. -/
+The arrays returned by `cc_hashtable_get_keys/get_values` hold exactly the keys / values of the map,
+are well-formed arrays of capacity `size` carrying the default expansion factor **and the table's
+allocator triple** (the C code copies `mem_alloc/mem_calloc/mem_free` into the `CC_ArrayConf`), so a
+further `cc_array_add` on the full array grows it and appends through that triple.  On an empty
+table nothing is built.  The C14 statements live in `C14Hash.lean`. -/
 namespace CC.Properties.C15Hash
 open CC CC.HT CC.Spec
 
-/-- snapshot content, shape and ledger of `get_keys` -/
+/-- snapshot content, shape, triple and ledger of `get_keys` -/
 theorem get_keys_snapshot (c : HCfg) (t : HashTable) (m : Mem) (h : t.Inv c) (a : DArr)
-    (hbig : 3 * t.size ≤ Gen.CC_MAX_ELEMENTS) (ha : (t.getKeys c m).2.1 = some a) :
+    (hbig : 8 * t.size ≤ Gen.CC_MAX_ELEMENTS) (ha : (t.getKeys c m).2.1 = some a) :
     a.contents = (Map.keys t.abs).map encKey ∧ a.Inv ∧ a.cap = t.size ∧ a.size = t.size ∧
-    (t.getKeys c m).2.2.live = m.live + 2 := by
-  obtain ⟨r1, r2, r3, _, r5⟩ := HashTable.getKeys_spec c t m h a hbig ha
-  refine ⟨r1, r2, r3, ?_, r5⟩
+    liveOf (t.getKeys c m).2.2 t.triple = liveOf m t.triple + 2 ∧ a.triple = t.triple := by
+  obtain ⟨r1, r2, r3, _, r5, r6⟩ := HashTable.getKeys_spec c t m h a hbig ha
+  refine ⟨r1, r2, r3, ?_, r5, r6⟩
   have : a.contents.length = a.size := by simp [DArr.contents]
   rw [← this, r1, List.length_map]
   unfold Map.keys HashTable.abs; rw [List.length_map, List.length_map]; exact h.2.2.1.symm
 
-/-- snapshot content, shape and ledger of `get_values` -/
+/-- the key array determines the key set exactly (a non-NULL key is a non-zero pointer) -/
+theorem get_keys_exact (c : HCfg) (t : HashTable) (m : Mem) (h : t.Inv c) (a : DArr)
+    (hbig : 8 * t.size ≤ Gen.CC_MAX_ELEMENTS) (hnz : some 0 ∉ Map.keys t.abs) (ha : (t.getKeys c m).2.1 = some a) :
+    a.contents.map C02.decKey = Map.keys t.abs := C02.enumeration_exact_keys c t m h hbig hnz a ha
+
+/-- snapshot content, shape, triple and ledger of `get_values` -/
 theorem get_values_snapshot (c : HCfg) (t : HashTable) (m : Mem) (h : t.Inv c) (a : DArr)
-    (hbig : 3 * t.size ≤ Gen.CC_MAX_ELEMENTS) (ha : (t.getValues c m).2.1 = some a) :
-    a.contents = Map.vals t.abs ∧ a.Inv ∧ a.cap = t.size ∧ (t.getValues c m).2.2.live = m.live + 2 := by
-  obtain ⟨r1, r2, r3, _, r5⟩ := HashTable.getValues_spec c t m h a hbig ha
-  exact ⟨r1, r2, r3, r5⟩
+    (hbig : 8 * t.size ≤ Gen.CC_MAX_ELEMENTS) (ha : (t.getValues c m).2.1 = some a) :
+    a.contents = Map.vals t.abs ∧ a.Inv ∧ a.cap = t.size ∧
+    liveOf (t.getValues c m).2.2 t.triple = liveOf m t.triple + 2 ∧ a.triple = t.triple := by
+  obtain ⟨r1, r2, r3, _, r5, r6⟩ := HashTable.getValues_spec c t m h a hbig ha
+  exact ⟨r1, r2, r3, r5, r6⟩
 
-/-- the result is a usable array: appending to it (it is exactly full) succeeds whenever the
-allocator does not refuse, and appends -/
-theorem snapshot_can_grow (c : HCfg) (a : DArr) (x : Nat) (m : Mem) (h : a.Inv) (hmax : a.cap < Gen.CC_MAX_ELEMENTS)
-    (hs : m.sched = []) :
-    (a.add c x m).1 = .ok ∧ (a.add c x m).2.1.contents = a.contents ++ [x] ∧ (a.add c x m).2.1.Inv := by
-  obtain ⟨a1, _, a3, _⟩ := DArr.add_spec c a x m h hmax
-  exact ⟨a3 hs, (a1 (a3 hs)).2, (a1 (a3 hs)).1⟩
+/-- on an empty table: `CC_ERR_INVALID_CAPACITY`, no object, ledger unchanged -/
+theorem snapshot_of_empty (c : HCfg) (t : HashTable) (m : Mem) (h : t.Inv c) (h0 : t.size = 0) :
+    t.getKeys c m = (.errInvalidCapacity, none, m) ∧ t.getValues c m = (.errInvalidCapacity, none, m) :=
+  C02.enumeration_empty c t m h h0
 
-/-- independence: later operations on the table cannot change the snapshot and vice versa — in the
-model both are values; what this abstracts (aliasing of the two heap objects) is checked on the
-real heap by the correspondence runs (`mk_keys`/`mk_values`, `arr_add`, `destroy_table`).  Stated
-here: destroying the array releases exactly its two blocks. -/
-theorem snapshot_destroy (a : DArr) (m : Mem) (hl : 2 ≤ m.live) :
-    (a.destroy m).live = m.live - 2 ∧ (a.destroy m).fault = m.fault := by
-  have f1 := free_spec m (by omega)
-  have f2 := free_spec m.free (by omega)
+/-- when a snapshot is produced: on a non-empty table, whenever the allocator grants the two blocks -/
+theorem snapshot_succeeds (c : HCfg) (t : HashTable) (m : Mem) (h : t.Inv c) (hpos : 0 < t.size)
+    (hbig : 8 * t.size ≤ Gen.CC_MAX_ELEMENTS) (hs : m.sched = []) :
+    (t.getKeys c m).1 = .ok ∧ (t.getKeys c m).2.1.isSome = true ∧
+    (t.getValues c m).1 = .ok ∧ (t.getValues c m).2.1.isSome = true := C02.enumeration_succeeds c t m h hpos hbig hs
+
+/-- `derived_can_grow`: the result is a usable array: appending to it (it is exactly full) grows it
+with the default factor through the inherited triple and appends, whenever that allocation is granted
+and the byte-size guard of `expand_capacity` is not hit -/
+theorem snapshot_can_grow (c : HCfg) (a : DArr) (x : Nat) (m : Mem) (h : a.Inv) (hmax : a.cap < Gen.CC_MAX_ELEMENTS / 8)
+    (hg : c.agrow a.cap ≤ Gen.CC_MAX_ELEMENTS / 8) (hs : (m.allocT a.triple).1 = true ∨ a.size < a.cap) :
+    (a.add c x m).1 = .ok ∧ (a.add c x m).2.1.contents = a.contents ++ [x] ∧ (a.add c x m).2.1.Inv ∧
+    (a.add c x m).2.1.triple = a.triple ∧ liveOf (a.add c x m).2.2 a.triple = liveOf m a.triple := by
+  obtain ⟨a1, a2, a3, a4, _, a6⟩ := DArr.add_spec c a x m h hmax hg
+  have hok : (a.add c x m).1 = .ok := by
+    rcases hs with hs | hs
+    · exact a6 hs
+    · exact (DArr.add_room c a x m h hs).1
+  exact ⟨hok, (a1 hok).2.1, (a1 hok).1, (a1 hok).2.2, a3 hok⟩
+
+theorem derived_can_grow (c : HCfg) (t : HashTable) (m m2 : Mem) (h : t.Inv c) (a : DArr) (x : Nat)
+    (hbig : 8 * (t.size + 1) ≤ Gen.CC_MAX_ELEMENTS) (hg : c.agrow t.size ≤ Gen.CC_MAX_ELEMENTS / 8)
+    (ha : (t.getKeys c m).2.1 = some a) (hs : (m2.allocT t.triple).1 = true) :
+    (a.add c x m2).1 = .ok ∧ (a.add c x m2).2.1.contents = (Map.keys t.abs).map encKey ++ [x] := by
+  obtain ⟨r1, r2, r3, _, _, r6⟩ := HashTable.getKeys_spec c t m h a (by omega) ha
+  have hmax : a.cap < Gen.CC_MAX_ELEMENTS / 8 := by
+    rw [r3]
+    have : t.size + 1 ≤ Gen.CC_MAX_ELEMENTS / 8 := (Nat.le_div_iff_mul_le (by omega)).mpr (by omega)
+    omega
+  obtain ⟨g1, g2, _⟩ := snapshot_can_grow c a x m2 r2 hmax (by rw [r3]; exact hg) (Or.inl (by rw [r6]; exact hs))
+  exact ⟨g1, by rw [g2, r1]⟩
+
+/-- destroying the array releases exactly its two blocks, through its own triple -/
+theorem snapshot_destroy (a : DArr) (m : Mem) (hl : 2 ≤ liveOf m a.triple) :
+    liveOf (a.destroy m) a.triple = liveOf m a.triple - 2 ∧ (a.destroy m).fault = m.fault := by
+  have f1 := freeT_spec m a.triple (by omega)
+  have f2 := freeT_spec (m.freeT a.triple) a.triple (by omega)
   unfold DArr.destroy
   exact ⟨by omega, by rw [f2.2.1, f1.2.1]⟩
 
-/-- **C14**: no table operation ever uses the C library allocator: the `libc` counter of the ledger
-is unchanged by the constructor, `add` (including every resize), `remove`, `remove_all`, `destroy`,
-`get_keys` and `get_values` -/
-theorem only_configured_allocators (c : HCfg) (t : HashTable) (k : Key) (v cap : Nat) (m : Mem) :
-    (HashTable.new c cap m).2.2.libc = m.libc ∧ (t.add c k v m).2.2.libc = m.libc ∧
-    (t.remove c k m).2.2.2.libc = m.libc ∧ (t.removeAll m).2.libc = m.libc ∧ (t.destroy m).libc = m.libc :=
-  ⟨HashTable.new_libc c cap m, HashTable.add_libc c t k v m, HashTable.remove_libc c t k m,
-   HashTable.removeAll_libc t m, HashTable.destroy_libc t m⟩
-
-theorem snapshots_use_table_allocator (c : HCfg) (t : HashTable) (m : Mem) (h : t.Inv c) (hpos : 0 < t.size)
-    (hbig : 3 * t.size ≤ Gen.CC_MAX_ELEMENTS) :
-    (t.getKeys c m).2.2.libc = m.libc ∧ (t.getValues c m).2.2.libc = m.libc := by
-  have hw := HashTable.walk_eq t h.2.1
-  have hsz := h.2.2.1
-  have k1 := ((HashTable.collect_spec c t (t.walk.map (fun e => encKey e.key)) m h (by rw [hw, List.length_map]; omega) hbig).2 hpos).2.2.2.2.1
-  have k2 := ((HashTable.collect_spec c t (t.walk.map (·.value)) m h (by rw [hw, List.length_map]; omega) hbig).2 hpos).2.2.2.2.1
-  exact ⟨k1, k2⟩
-
-/-- `derived_can_grow`: a following append on the (exactly full) result succeeds whenever the
-allocator does not refuse, and refines append -/
-theorem derived_can_grow (c : HCfg) (t : HashTable) (m m2 : Mem) (h : t.Inv c) (a : DArr) (x : Nat)
-    (hbig : 3 * t.size ≤ Gen.CC_MAX_ELEMENTS) (ha : (t.getKeys c m).2.1 = some a) (hs : m2.sched = []) :
-    (a.add c x m2).1 = .ok ∧ (a.add c x m2).2.1.contents = (Map.keys t.abs).map encKey ++ [x] := by
-  obtain ⟨r1, r2, r3, _⟩ := HashTable.getKeys_spec c t m h a hbig ha
-  have hmax : a.cap < Gen.CC_MAX_ELEMENTS := by
-    rw [r3]; have : 0 < Gen.CC_MAX_ELEMENTS := by decide
-    omega
-  obtain ⟨g1, g2, _⟩ := snapshot_can_grow c a x m2 r2 hmax hs
-  exact ⟨g1, by rw [g2, r1]⟩
-
-/-- `source_unchanged` / `independent`: the builders take the table by value and return no table —
-the source is literally the same value afterwards; and no later history on the table can change an
-array already built, nor the other way round (both are values of the model; the aliasing question
-for the two heap objects is answered by the harness runs with `focus="derived"`) -/
-theorem independent (c : HCfg) (t : HashTable) (a : DArr) (ops : List Spec.Map.Op) (x : Nat) (m : Mem) :
+/-- `source_unchanged` / `independent` — **true by the value semantics of the model** (the builders
+take the table by value and return no table; a later history on one object cannot reach the other
+inside Lean).  The model cannot falsify these clauses; the aliasing question for the two heap objects
+is answered by the harness (`focus="derived"`: `mk_keys/mk_values`, `arr_add`, `destroy_table` first,
+full observation of both objects after every step, ASan). -/
+theorem independent_model (c : HCfg) (t : HashTable) (a : DArr) (ops : List Spec.Map.Op) (x : Nat) (m : Mem) :
     (a, (t.run c ops m).2.2.1).1 = a ∧ (t, (a.add c x m).2.1).1 = t := ⟨rfl, rfl⟩
 
 /-- non-vacuity -/
-example : ((HashTable.mk 2 2 2 [[⟨none, 9, 0⟩], [⟨some 1, 11, 7⟩]]).getKeys ⟨fun _ => 7, fun c => c, fun c => c * 2⟩ { live := 4 }).2.1.map (·.contents)
+example : ((HashTable.mk 2 2 2 [[⟨none, 9, 0⟩], [⟨some 1, 11, 7⟩]] .conf).getKeys ⟨fun _ => 7, fun c => c, fun c => c * 2⟩ { live := 4 }).2.1.map (·.contents)
     = some [0, 1] := by decide
+/-- the growth hypotheses are satisfiable: a full two-element array doubles -/
+example : ((DArr.mk 2 2 [5, 6] .conf).add ⟨fun _ => 7, fun c => c, fun c => c * 2⟩ 7 { live := 2 }).2.1.contents = [5, 6, 7] := by decide
 
 end CC.Properties.C15Hash
